@@ -3,6 +3,7 @@
 mod afio;
 mod obs;
 mod dynamic;
+mod sat;
 mod stat;
 mod store;
 mod util;
@@ -18,6 +19,7 @@ fn main() {
         "static" => stat::cmd_static(&a),
         "store" => store::cmd_store(&a),
         "dynamic" => dynamic::cmd_dynamic(&a),
+        "sat" => sat::cmd_sat(&a),
         c => {
             eprintln!("unknown command {}", c);
             std::process::exit(2);
